@@ -142,23 +142,47 @@ class Cond:
     def Iff(a, b):
         return Cond.Or(Cond.And(a, b), Cond.And(Cond.Not(a), Cond.Not(b)))
 
-    def polys(self, acc=None):
-        acc = [] if acc is None else acc
+    def size(self, seen=None):
+        """Number of distinct nodes (conditions are DAGs)."""
+        seen = set() if seen is None else seen
+        if id(self) in seen:
+            return 0
+        seen.add(id(self))
+        if self.kind in ("and", "or"):
+            return 1 + sum(c.size(seen) for c in self.a)
+        if self.kind == "not":
+            return 1 + self.a.size(seen)
+        return 1
+
+    def gens_used(self, acc, seen=None):
+        seen = set() if seen is None else seen
+        if id(self) in seen:
+            return acc
+        seen.add(id(self))
         if self.kind == "p":
-            acc.append(self.a)
+            for m in self.a.keys():
+                for i, e in enumerate(m):
+                    if e:
+                        acc.add(i)
         elif self.kind in ("and", "or"):
             for c in self.a:
-                c.polys(acc)
+                c.gens_used(acc, seen)
         elif self.kind == "not":
-            self.a.polys(acc)
+            self.a.gens_used(acc, seen)
         return acc
 
-    def size(self):
+    def is_linear(self, seen=None):
+        seen = set() if seen is None else seen
+        if id(self) in seen:
+            return True
+        seen.add(id(self))
+        if self.kind == "p":
+            return all(sum(m) <= 1 for m in self.a.keys())
         if self.kind in ("and", "or"):
-            return 1 + sum(c.size() for c in self.a)
+            return all(c.is_linear(seen) for c in self.a)
         if self.kind == "not":
-            return 1 + self.a.size()
-        return 1
+            return self.a.is_linear(seen)
+        return True
 
     def __repr__(self):
         if self.kind == "c":
@@ -536,14 +560,47 @@ class Ctx:
 
     def solve(self, conds, timeout_ms=None, atoms=None, z3extra=()):
         """check-sat of atom relations + lemmas + conds.  Returns (verdict, model|None)."""
-        s = z3.SolverFor("QF_NRA")
+        ats = self.atoms if atoms is None else atoms
+        if not z3extra and all(isinstance(c, Cond) for c in conds):
+            # cone of influence: only atoms that occur (transitively) in the conditions
+            used = set()
+            for c in conds:
+                c.gens_used(used)
+            changed = True
+            while changed:
+                changed = False
+                for a in ats:
+                    if a.idx in used:
+                        deps = set()
+                        if a.kind == "root":
+                            for m in a.h.keys():
+                                deps.update(i for i, e in enumerate(m) if e)
+                        for x in a.args:
+                            for p in [x.num] + list(x.den):
+                                for m in p.keys():
+                                    deps.update(i for i, e in enumerate(m) if e)
+                        if not deps <= used:
+                            used |= deps
+                            changed = True
+            ats = [a for a in ats if a.idx in used]
+            atoms = ats
+        linear = not z3extra and not ats and all(isinstance(c, Cond) and c.is_linear() for c in conds)
+        s = z3.SolverFor("QF_LRA") if linear else z3.SolverFor("QF_NRA")
         s.set("timeout", timeout_ms or self.solver_timeout_ms)
         s.add(*self.atom_constraints(atoms))
+        memo = {}
         for c in conds:
-            s.add(self.z3c(c) if isinstance(c, Cond) else c)
+            s.add(self.z3c(c, memo) if isinstance(c, Cond) else c)
         for c in z3extra:
             s.add(c)
         r = self._timed_check(s)
+        if r == "unknown" and not linear:
+            # second opinion from the general solver (different strategy on heavy boolean structure)
+            s2 = z3.Solver()
+            s2.set("timeout", timeout_ms or self.solver_timeout_ms)
+            s2.add(*s.assertions())
+            r = self._timed_check(s2)
+            s = s2
         return r, (s.model() if r == "sat" else None)
 
     # ---- branching
@@ -1529,6 +1586,10 @@ def explore(ctx, fn, pre=(), max_paths=64, budget_s=600.0, first_sample=None, on
         except Exception as ex:  # noqa: BLE001 - the code under test may raise anything
             out, st = ex, "raise"
             err = traceback.format_exc()
+            tb = traceback.extract_tb(ex.__traceback__)
+            inner = tb[-1].filename if tb else ""
+            if "/symx/" in inner or isinstance(ex, NotImplementedError):
+                st = "shim-error"  # the model, not the code under test, failed: a harness error, never a verdict
         if ctx.pos < len(ctx.prefix) and st != "abort":
             # re-execution diverged from the recorded prefix (non-determinism): harness error
             st, err = "abort", "prefix not consumed (%d of %d)" % (ctx.pos, len(ctx.prefix))
